@@ -306,6 +306,46 @@ theorem no_catch_stores {σ F : Type} (pre : List (Stmt σ F)) (st : Stmt σ F) 
   rw [runStmts_append]
   simp [hno, runStmts]
 
+/-! ### The statement-level clause, tied to the solver's options -/
+
+/-- Warnings are errors exactly under `errors='raise'` with `catch_first_error` (the `warnings.simplefilter('error')`
+    branch of `solve_t`). -/
+def strictOf (o : Opts) : Bool := decide (o.errors = .raise) && o.catchFirst
+
+/-- **The statement that warned does not store; the call raises with 'E' at that pass.**  For any model whose
+    evaluation pass runs a list of statements (`heval`), under `errors='raise'` and `catch_first_error`: if pass `s` is
+    reached and its statement `st` — after the statements `pre` of that pass, which did not warn — emits a warning, then
+    `solve_t` raises a chained SolutionError, records 'E' and `s`, and leaves the values as they were after `pre`:
+    `st`'s result is not stored and the statements after it do not run. -/
+theorem warning_statement_not_stored {σ V F : Type} (I : Interp σ V) (o : Opts) (n : Nat) (t : Int) (w : World σ)
+    (stmts : Int → Nat → List (Stmt σ F))
+    (heval : ∀ o' u t' k, I.eval o' u t' k = runStmts (strictOf o') (stmts t' k) u)
+    (he : o.errors = .raise) (hc : o.catchFirst = true)
+    (hacc : Accepted I o n t)
+    (hpre0 : ¬ (o.errors = .raise ∧ I.allFinite (I.check (seed I o t w.user) t) = false))
+    (hb : (I.before o (seed I o t w.user) t).2 = false)
+    (s : Nat) (hs : Reaches I o t (I.before o (seed I o t w.user) t).1 (I.check (seed I o t w.user) t) s)
+    (pre : List (Stmt σ F)) (st : Stmt σ F) (rest : List (Stmt σ F))
+    (hsplit : stmts t s = pre ++ st :: rest)
+    (hpre : (runStmts true pre (traj I o t (I.before o (seed I o t w.user) t).1 (s - 1))).2 = false)
+    (hw : (st.rhs (runStmts true pre (traj I o t (I.before o (seed I o t w.user) t).1 (s - 1))).1).2 = true) :
+    solveT I o n t w =
+      (stamp (withUser w (runStmts true pre (traj I o t (I.before o (seed I o t w.user) t).1 (s - 1))).1) n t .error s,
+       .solutionError true) := by
+  have hstrict : strictOf o = true := by simp [strictOf, he, hc]
+  have hpass : I.eval o (traj I o t (I.before o (seed I o t w.user) t).1 (s - 1)) t s
+      = ((runStmts true pre (traj I o t (I.before o (seed I o t w.user) t).1 (s - 1))).1, true) := by
+    rw [heval, hstrict, hsplit]
+    exact catch_first_no_store pre st rest _ hpre hw
+  have hr : (I.eval o (traj I o t (I.before o (seed I o t w.user) t).1 (s - 1)) t s).2 = true := by rw [hpass]
+  rw [eval_exception I o n t w hacc hpre0 hb s hs hr]
+  simp only [he, if_true]
+  obtain ⟨hp, _, _⟩ := hs
+  obtain ⟨j, rfl⟩ : ∃ j, s = j + 1 := ⟨s - 1, by omega⟩
+  simp only [Nat.add_sub_cancel] at hpass ⊢
+  show (stamp (withUser w (I.eval o (traj I o t _ j) t (j + 1)).1) n t .error _, _) = _
+  rw [hpass]
+
 /-- Non-vacuity: pass with three statements, the second warns. -/
 example : runStmts true
     [⟨fun u => (u + 1, false), fun _ v => v⟩, ⟨fun u => (u * 100, true), fun _ v => v⟩,
@@ -429,5 +469,21 @@ example : runStmts true ([⟨fun u => (u + 1, false), fun _ v => v⟩] ++
     ((runStmts true [⟨fun u => (u + 1, false), fun _ v => v⟩] (0 : Nat)).1, true) :=
   catch_first_no_store [⟨fun u => (u + 1, false), fun _ v => v⟩] ⟨fun u => (u * 100, true), fun _ v => v⟩
     [⟨fun u => (u + 7, false), fun _ v => v⟩] (0 : Nat) (by decide) (by decide)
+
+/-- `warning_statement_not_stored`: a model whose pass is three statements — store `u + 1`; store `u * 2` with a warning;
+    store 0 — solved with the default error handling from 1: the first statement's 2 is kept, the warning statement's 4
+    is not stored, the third never runs; 'E' at pass 1. -/
+private def exStm3 : List (Stmt Nat Nat) :=
+  [⟨fun u => (u + 1, false), fun _ v => v⟩, ⟨fun u => (u * 2, true), fun _ v => v⟩, ⟨fun _ => (0, false), fun _ v => v⟩]
+private def exIS : Interp Nat Nat :=
+  { exI with allFinite := fun _ => true, before := fun _ u _ => (u, false),
+             eval := fun o u _ _ => runStmts (strictOf o) exStm3 u, after := fun _ u _ _ => (u, false) }
+example : solveT exIS { maxIter := 5 } 3 1 ⟨1, List.replicate 3 .unsolved, List.replicate 3 (-1)⟩ =
+    (stamp (withUser ⟨1, List.replicate 3 .unsolved, List.replicate 3 (-1)⟩ 2) 3 1 .error ((1 : Nat) : Int),
+     .solutionError true) :=
+  warning_statement_not_stored exIS { maxIter := 5 } 3 1 _ (fun _ _ => exStm3) (fun _ _ _ _ => rfl) rfl rfl
+    (exAcc _ rfl rfl _ (by decide) rfl) (by decide) rfl 1 ⟨by decide, by decide, swapLt 1 (by unfold Continues; decide)⟩
+    [⟨fun u => (u + 1, false), fun _ v => v⟩] ⟨fun u => (u * 2, true), fun _ v => v⟩ [⟨fun _ => (0, false), fun _ v => v⟩]
+    rfl rfl rfl
 
 end Fsic.C06
